@@ -61,6 +61,8 @@ mod c_scc;
 mod c_eq;
 #[path = "../search/c_par.rs"]
 mod c_par;
+#[path = "../search/c_safe.rs"]
+mod c_safe;
 
 use {
     json::J,
@@ -241,6 +243,12 @@ fn final_line(line: &str) {
 }
 
 pub fn eval_case<C: Case>(c: &C) -> Option<J> {
+    if let Ok(path) = std::env::var("SEARCH_TRACE_FILE") {
+        // the case about to run: if the process is killed by a signal, the driver reports this input
+        let mut o = vec![("property".to_string(), J::s(c.prop()))];
+        o.extend(c.fields());
+        let _ = std::fs::write(path, J::Obj(o).to_string());
+    }
     let epoch = EPOCH.fetch_add(1, AtomicOrdering::Relaxed) + 1;
     *CURRENT.lock().unwrap_or_else(|e| e.into_inner()) = Some((epoch, c.prop(), c.fields()));
     let r = eval_case_unwatched(c);
@@ -265,9 +273,9 @@ fn eval_case_unwatched<C: Case>(c: &C) -> Option<J> {
     }
 }
 
-const PROPS: [&str; 19] = [
+const PROPS: [&str; 20] = [
     "C01", "C02", "C03", "C04", "C05", "C06", "C07", "C08", "C09", "C10", "C11",
-    "C12", "C14", "C15", "C16", "C17", "C18", "C19", "C20",
+    "C12", "C13", "C14", "C15", "C16", "C17", "C18", "C19", "C20",
 ];
 
 fn search(prop: &str, seed: u64, ctx: &mut Ctx) -> Option<J> {
@@ -280,6 +288,7 @@ fn search(prop: &str, seed: u64, ctx: &mut Ctx) -> Option<J> {
         "C10" => c_scc::search_c10(seed, ctx),
         "C11" => c_ops::search_c11(seed, ctx),
         "C12" => c_ops::search_c12(seed, ctx),
+        "C13" => c_safe::search_c13(seed, ctx),
         "C14" => c_gen::search_c14(seed, ctx),
         "C15" => c_gen::search_c15(seed, ctx),
         "C16" => c_conv::search_c16(seed, ctx),
@@ -301,6 +310,7 @@ fn replay(prop: &str, j: &J) -> Result<Option<J>, String> {
         "C10" => c_scc::replay_c10(j),
         "C11" => c_ops::replay_c11(j),
         "C12" => c_ops::replay_c12(j),
+        "C13" => c_safe::replay_c13(j),
         "C14" => c_gen::replay_c14(j),
         "C15" => c_gen::replay_c15(j),
         "C16" => c_conv::replay_c16(j),
